@@ -7,6 +7,7 @@
 mod exec;
 mod gen;
 mod model;
+mod mt;
 mod scn;
 mod sim;
 
@@ -284,6 +285,16 @@ fn main() {
 
 	let budget = Budget::new(args.budget);
 	let mut rng = args.rng();
+	if args.extra.contains_key("mt-only") {
+		// the ThreadSanitizer build runs only the multi-threaded workload
+		let mut k = 0;
+		while !budget.exhausted() {
+			mt::run_one(&prop, &mut rng, &mut rep, k == 0);
+			k += 1;
+		}
+		rep.write(&args);
+		return;
+	}
 	let mut n = 0usize;
 	// bounded-exhaustive part (sharded round-robin), then seeded random until the budget is used
 	let exhaustive = gen::exhaustive(&prop, args.thorough());
@@ -308,9 +319,15 @@ fn main() {
 		rep.note("bounded-exhaustive part cut short by the time budget");
 	}
 	let mut r = 0u64;
+	let mt_props = ["C04", "C07", "C10"].contains(&prop.as_str());
 	while !budget.exhausted() && (budget.fraction() < 0.9) {
-		let sc = gen::random(&prop, &mut rng, args.thorough());
-		run_one(&prop, &sc, &mut rep, true, r < 2);
+		if mt_props && r % 5 == 4 {
+			// concurrent senders on a multi-thread runtime, real clock (invariant oracles only)
+			mt::run_one(&prop, &mut rng, &mut rep, r == 4);
+		} else {
+			let sc = gen::random(&prop, &mut rng, args.thorough());
+			run_one(&prop, &sc, &mut rep, true, r < 2);
+		}
 		r += 1;
 	}
 	rep.count("random_scenarios", r);
